@@ -514,6 +514,9 @@ def run(ctx):
     ctx.ob('C17.R4', 'mapping:template-atoms', all(mp.get(k) == v for k, v in want_map.items()),
            'the defining atoms of these groups are the ones the templates assume (%s)'
            % {k: mp.get(k) for k in want_map}, gmod, gmod.tree)
+    # every heavy atom of the input is there to be protonated: occupancy, B-factor
+    # and serial number never decide whether an atom is read (rule shared with C07)
+    common.check_inert_fields(ctx, 'C17.L2', prog, ['numb', 'occ', 'beta'])
     # bond perception feeds the count: record type, residue or chain must not enter
     common.check_pair_routine(ctx, 'C17.L1', prog.mod('bonds'))
     ctx.assume('distance-based bond perception reproduces the templates for residues with regular '
